@@ -67,6 +67,8 @@ func (c18) Plan(tier string, seed int64) []core.Scenario {
 	}
 	// the peer has stopped reading: a large request is stuck in write(2) when the closer is invoked
 	out = append(out, core.Sc("stalled-write").WithN("mb", 32))
+	// a subscription with tens of thousands of unread values when the closer is invoked
+	out = append(out, core.Sc("backlog").WithN("n", 20000).WithN("how", 0), core.Sc("backlog").WithN("n", 17000).WithN("how", 1))
 	if tier == "thorough" {
 		// repeat the whole enumeration with different noise
 		base := append([]core.Scenario(nil), out...)
@@ -89,6 +91,8 @@ func (p c18) Run(sc core.Scenario) core.Result {
 		p.stateless(sc, r)
 	} else if sc.Kind == "stalled-write" {
 		p.stalledWrite(sc, r)
+	} else if sc.Kind == "backlog" {
+		p.backlog(sc, r)
 	} else {
 		p.closeAt(sc, r)
 	}
@@ -225,6 +229,9 @@ func (c18) closeAt(sc core.Scenario, r *core.R) {
 		h2 := Tok("h")
 		env.Svc.Hold(h2)
 		add(Go(h2, func() (string, error) { return cl.EchoR(bg, h2, "") })) // retry-tagged, in flight across the close
+		h3 := Tok("h")
+		env.Svc.Hold(h3)
+		add(Go(h3, func() (string, error) { return cl.NoCtxR(h3) })) // retry-tagged method without a context parameter
 		sub(bg)
 		step(echo("a"))
 	}()
@@ -394,4 +401,63 @@ func (c18) stateless(sc core.Scenario, r *core.R) {
 	r.Key(fmt.Sprintf("stateless %s %d", tr, sc.I("i")), true)
 	r.Obs("stateless_closes", 1)
 	r.Sample(map[string]interface{}{"transport": tr, "calls_in_progress": 5, "incl_method_without_context": true})
+}
+
+// backlog: one subscription whose consumer does not read while the handler hands over n values (the client
+// buffers them); then the client is closed (how=0) or loses its connection without reconnecting (how=1).
+// The closer returns, later calls fail, and the channel is closed once the consumer drains it.
+func (c18) backlog(sc core.Scenario, r *core.R) {
+	n := sc.I("n")
+	env := NewEnv(EnvOpt{})
+	defer env.Shutdown()
+	pol := noisePolicy(sc)
+	defer pol.Install()()
+	opts := []jsonrpc.Option{jsonrpc.WithReconnectBackoff(5*time.Millisecond, 20*time.Millisecond)}
+	if sc.I("how") == 1 {
+		opts = append(opts, jsonrpc.WithNoReconnect())
+	}
+	cl, err := env.NewClient(ClientOpt{Opts: opts})
+	if err != nil {
+		r.Inconclusive("client: %v", err)
+		return
+	}
+	bg := context.Background()
+	t := Tok("s")
+	ch, err := cl.Sub(bg, t, n, svc.SPrefilled)
+	if err != nil || ch == nil {
+		r.Inconclusive("subscribe: %v", err)
+		return
+	}
+	// nobody reads ch; wait until everything (values and the close notification) has reached the client
+	if !core.EventuallyProgress(2*core.Grace, func() int64 { return int64(env.Px.DataFrames(wsproxy.S2C)) }, func() bool { return env.Px.DataFrames(wsproxy.S2C) >= n+2 }) {
+		r.Inconclusive("the stream was not forwarded completely (%d frames)", env.Px.DataFrames(wsproxy.S2C))
+		return
+	}
+	time.Sleep(50 * time.Millisecond)
+	closed := make(chan struct{})
+	if sc.I("how") == 1 {
+		env.Px.KillAll(wsproxy.RST)
+		time.Sleep(20 * time.Millisecond)
+	}
+	go func() { cl.Close(); close(closed) }()
+	where := fmt.Sprintf("%d unread values buffered for a subscriber, then %s", n, []string{"the closer", "a connection loss on a client without reconnect, then the closer"}[sc.I("how")])
+	if !core.WaitCh(closed, core.Grace) {
+		r.Violate("closer-hang:backlog", "%s: the closer did not return; events: %s", where, core.Log.TailFiltered(20, "px.frame"))
+	}
+	lt := Tok("l")
+	o := Go(lt, func() (string, error) { return cl.Echo(bg, lt, "") })
+	if !o.Wait(core.Grace) {
+		r.Violate("late-call-blocked", "%s: a call issued afterwards blocks", where)
+	} else if o.Err == nil {
+		r.Violate("late-call-served", "%s: a call issued afterwards was served", where)
+	}
+	g := drainItems(ch, 0, -1, nil)
+	if !core.WaitProgress(g.done, core.Grace, func() int64 { return int64(g.n()) }) {
+		r.Violate("channel-open-after-close", "%s: the channel is still open after the consumer drained it (received %d)", where, g.n())
+	}
+	checkSeq(r, "backlog", t, g.snapshot(), n, false)
+	r.Key(fmt.Sprintf("backlog n=%d how=%d", n, sc.I("how")), true)
+	r.Obs("backlog_values", int64(g.n()))
+	r.Sig(core.Log.Signature())
+	r.Sample(map[string]interface{}{"scenario": where, "received_after_close": g.n()})
 }
